@@ -177,7 +177,7 @@ pub fn check_stream(ls: &LangSet, code: &str, toks: &[IdTok], model: bool) -> St
 }
 
 pub fn run(ctx: &Ctx) -> Outcome {
-    let n_streams = ctx.n(60_000, 2_000_000);
+    let n_streams = ctx.n(300_000, 6_000_000);
     let rep = run_sharded(ctx, |w, nw, rep| {
         let ls = LangSet::new();
         let mut rng = Rng::derive(ctx.seed, "C09", w as u64);
